@@ -96,7 +96,8 @@ check("C04", "exploration",
       "Every control skeleton with <=2 compound nodes over if/else, while(/else), for-in(/else), C-style for, do-while, switch with "
       "fall-through, try/except/else/finally forms, break, continue, return, raise, nested def - rendered in Python (17.8 k methods) "
       "and JavaScript, Java, C, PHP, Go (all 1-compound skeletons and the loop/switch x jump pairs, 8 k methods each; thorough: in addition "
-      "every 2-compound skeleton for JavaScript, 112 k); C-family kinds include for without update and a default label in the middle; skeletons are also rendered "
+      "every 2-compound skeleton over if / if-else / while / for / do-while / switch / try-except for JavaScript, 35 k, and the pairs with "
+      "comparison tests); C-family kinds include for without update and a default label in the middle; skeletons are also rendered "
       "with every test as a comparison, so that the statements computing the condition are part of the path (0/1-compound "
       "skeletons; thorough also the pairs) - lowered by the real lang phase, CFGs built by the real P1 analysis; for every method every decision vector "
       "of length <=6 (thorough 8) is executed by the reference GIR interpreter in oracle mode (each test, loop iteration, case match "
